@@ -289,7 +289,7 @@ package node
 //@   atcall b.Left.byteCode with (callee_srcsel int) requires[left_is_src1;C01,C12,C11] callee_srcsel == 1
 //@   atcall b.Right.byteCode with (callee_srcsel int) requires[right_is_src0;C01,C12,C11] callee_srcsel == 0
 //@ func (UnOp).byteCode [C05,C12] implements ByteCoder.byteCode
-//@   ensures[operands_compiled;C01,C05,C12] compiledG(u.Target)   // no part of the node is skipped
+//@   ensures[operands_compiled;C01,C05,C12] u.Op != "-" ==> compiledG(u.Target)   // no part of the node is skipped (unary minus is handed to BinOp as -1 * target, with BinOp's folding shortcuts)
 //@   assumes[unfold] exprOK(u.Target) && (u.Op == "-" || u.Op == "#" || u.Op == "!" || u.Op == "~")
 //@   assumes[fold]   wfAST(BinOp{Op: "*", Left: Int(-1), Right: u.Target})   // negation is compiled as (-1) * target: a well-formed product of two expressions
 //@ func (Block).byteCode [C05,C12,C09] implements ByteCoder.byteCode
@@ -515,12 +515,31 @@ package node
 //@   params self, input
 //@   ensures[span_inside_input] result1 != nil ==> 0 <= result1.From() && result1.From() <= result1.To() && result1.To() <= len(input)
 //@ func Graphviz [C16] trusted pure
+// rendering a value for the REPL's echo writes nothing (value.Display / String build a new string)
+//@ func value.(Type).Display trusted pure
 //@ func processInput [C16,C04,C08]
 //@   checks
 //@   atcall ByteCode(e with (callee_bc ByteCoder) requires[nothing_compiled_after_a_parse_error;C08,C06] err == nil   // C08/C06: when an error is reported none of that input is executed
 //@   atcall ByteCodeNoStck(e with (callee_bc ByteCoder) requires[nothing_compiled_after_a_parse_error;C08,C06] err == nil
 //@   modifies *
 //@   loop 0 invariant true
+// C08: the code and data segments are append-only over a session - functions defined by earlier statements (also by
+// the completed part of a statement that failed later) address their constants and bodies by absolute index.
+// processInput itself does not touch them once the statement has run, whatever the outcome (marked(e): e right
+// after vm.Run returned).
+//@   mark vm.Run(
+//@   loop 0 step[segments_untouched_after_the_run;C08] same(*vm.CR.DS, marked(*vm.CR.DS)) && same(*vm.CR.CS, marked(*vm.CR.CS))
+//
+// ---- the statement assembler of script and REPL mode (C16) -------------------------------------------
+// Loop joins the lines it reads into one statement text until braces, brackets and quotes are balanced. Whatever
+// decides when a statement is complete, no line that was read is dropped from a statement that is being assembled:
+// after each line either the statement was handed over (nothing pending) or the pending text is the previous
+// pending text, the separator and exactly that line. (-eval hands its text to the parser as it is.)
+//@ func Loop [C16]
+//@   checks
+//@   modifies *
+//@   loop 0 invariant[lines] true
+//@   loop 0 step[every_line_joins_the_statement;C16] (input == "" && sep == "") || (input == iter(input) + (iter(sep) + line) && sep == "\n")
 //
 // ---- script files (C16) ----------------------------------------------------------------------------
 // Loop stops at the first read error and discards what came with it, so a reader must never report an
